@@ -26,7 +26,7 @@ RULE = RULE + probes.RULE_TEXT + (probes.AUG_TEXT if PROPERTY_ID in probes.AUG_P
 ASSUMPTIONS = ["returning a view of an argument is not a mutation", "callables needing a display or a file (plot, animate, printline) are excluded; counted in evidence",
                "random constructors are excluded from the repeat-call clause only"]
 
-KINDS = ["R3", "T4", "R2", "T3", "v3", "v6", "q4", "v2", "s", "SO3", "SE3", "SO2", "SE2", "UQ", "Q", "Tw3", "Tw2", "Pl", "SV", "DQ", "l3", "t3"]
+KINDS = ["R3", "T4", "R2", "T3", "v3", "v6", "q4", "v2", "s", "SO3", "SE3", "SO2", "SE2", "UQ", "Q", "Tw3", "Tw2", "Pl", "SV", "DQ", "l3", "t3", "b6"]
 
 
 # --------------------------------------------------------------------------- #
@@ -311,6 +311,14 @@ def ops():
     add("Pl.commonperp", ["Pl", "Pl"], lambda P, Q: P.commonperp(Q))
     add("Pl.pp", ["Pl"], lambda P: P.pp)
     add("Pl.skew", ["Pl"], lambda P: P.skew)
+    # augmented forms that the list base class does not define (-=, /=): they fall back to the binary operator, so the object
+    # bound to the name before - and every array it shares with other objects - stays what it was
+    for k in ("Q", "SV", "Tw3", "Tw2", "Pl"):
+        add("%s-=" % k, [k, k], lambda X, Y: _aug(X, Y, "isub"), aug=True)
+        add("%s[0]-=" % k, [k, k], lambda X, Y: _aug(X[0], Y[0], "isub"))
+        add("%s/=s" % k, [k, "s"], lambda X, s_: _aug(X, s_, "itruediv"), aug=True)
+    add("SV(copy)-=", ["SV", "SV"], lambda X, Y: _aug(X.__class__(X[0]), Y[0], "isub"))
+    add("Pl.intersect_volume", ["Pl", "b6"], lambda P, bnd: one(P).intersect_volume(bnd))
     add("SV+SV", ["SV", "SV"], lambda A, B: A[0] + B[0])
     add("SV-SV", ["SV", "SV"], lambda A, B: A[0] - B[0])
     add("-SV", ["SV"], lambda A: -A)
@@ -420,6 +428,7 @@ def initial_pool(seeds):
         pool["l3"].append([float(x) for x in v[3:6]])
         pool["t3"].append(tuple(float(x) for x in v[1:4]))
     pool["s"] = [float(seeds["s"]), 0.25, 2]
+    pool["b6"] = [np.array([-5.0, 5.0, -5.0, 5.0, -5.0, 5.0]), np.array([-2.0, 3.0, -1.0, 4.0, 0.0, 6.0]), np.array([[-4.0, 4.0], [-3.0, 3.0], [-6.0, 6.0]])]   # axis-aligned volumes
     pool["SO3"] = [L.SO3(T[0][:3, :3].copy()), L.SO3([M[:3, :3].copy() for M in T])]
     pool["SE3"] = [L.SE3(T[0].copy()), L.SE3([M.copy() for M in T]), L.SE3(Tres.copy(), check=False), L.SE3(np.asfortranarray(T[2].copy()))]
     pool["SO2"] = [L.SO2(T2[0][:2, :2].copy()), L.SO2([M[:2, :2].copy() for M in T2])]
